@@ -195,6 +195,10 @@ func c10Run(c C10Case) c10Result {
 			spec.IdP.MetadataSigAlg = "urn:example:not-an-algorithm"
 		}
 		algFired = c10Signing[c.Scenario]
+	case "empty":
+		// the zero value of the configuration field: no algorithm at all is not a usable algorithm
+		spec.IdP.SignatureAlgorithm = ""
+		algFired = c10Signing[c.Scenario] && !strings.HasPrefix(c.Scenario, "metadata")
 	case "sha512":
 		spec.IdP.SignatureAlgorithm = world.AlgRSASHA512
 		if spec.IdP.MetadataSigAlg != "" {
@@ -328,7 +332,7 @@ func TestC10Enum(t *testing.T) {
 					cases = append(cases, C10Case{Scenario: sc, Variant: v, Faults: []world.Fault{p}})
 					cases = append(cases, C10Case{Scenario: sc, Variant: v, Faults: []world.Fault{p}, Warm: true})
 				}
-				for _, alg := range []string{"bogus", "sha512"} {
+				for _, alg := range []string{"bogus", "sha512", "empty"} {
 					cases = append(cases, C10Case{Scenario: sc, Variant: v, AlgFault: alg})
 				}
 				cases = append(cases, C10Case{Scenario: sc, Variant: v, Blackout: true}, C10Case{Scenario: sc, Variant: v, Blackout: true, Warm: true})
